@@ -7,7 +7,7 @@
 From Coq Require Import String.
 From Coq Require Import List Ascii ZArith Bool.
 From CGV Require Import Base.PyBase Base.PyVal Base.NxGraph Gen.HydroGen Hydro.Hydrogens Hydro.HydroDefs
-     Hydro.HydrogensProofs.
+     Hydro.HydrogensProofs Hydro.SquashDefs Hydro.RebuildProofs.
 Import ListNotations.
 Open Scope Z_scope.
 
@@ -77,6 +77,64 @@ Theorem C09_h_inherits : forall copy_attrs g k n anchor rest m,
         end.
 Proof. exact h_inherits. Qed.
 
+(** ------------------------------------------------------------------ END TO END (the whole fold)
+    For every graph with distinct keys, closed adjacency and no self loops (molecule graphs of the
+    resolver and of the sampler; implied by [wf_graph]) and every aromaticity transcript: *)
+Theorem C09_rebuild_h_atoms_transcript : forall ca g car g',
+  NoDup (node_keys g) -> closed_g g -> noself_g g -> rebuild_h_atoms false ca g car = Ok g' ->
+  exists g1, car = Some g1 /\ transcript_contract g g1 = true /\
+    NoDup (node_keys g1) /\ closed_g g1 /\ noself_g g1 /\ rebuild_after_car false ca g1 = Ok g'.
+Proof. exact rebuild_h_atoms_end_to_end. Qed.
+
+(** … and of the graph [g1] the aromaticity step left and the returned graph [g']:
+    1. every non-hydrogen atom gets exactly max(bonds_missing, 0) new hydrogen neighbours with fresh keys,
+       appended to its adjacency with order 1; its other attributes are unchanged; each new hydrogen has
+       that atom as its ONLY neighbour and carries parse_atom('[H]') plus the anchor's value (None if
+       absent) for every attribute of copy_attrs;
+    2. every hydrogen that was already there (explicitly written, single-H fragment) keeps its bonds and
+       every attribute it had;
+    3. nothing else is created: every new node is such a hydrogen of degree one. *)
+Theorem C09_rebuild_end_to_end : forall ca g1 g',
+  NoDup (node_keys g1) -> closed_g g1 -> noself_g g1 -> (forall i n, gfind i g1 = Some n -> no_rs n) ->
+  rebuild_after_car false ca g1 = Ok g' ->
+  (forall k n, gfind k g1 = Some n -> is_H (na n) = false ->
+     exists val b idxs n', valence_of (na n) = Ok val /\ sum_orders (nadj n) = Ok b /\
+       length idxs = Z.to_nat (Z.max (missing_of val b) 0) /\ NoDup idxs /\ (forall j, In j idxs -> gfind j g1 = None) /\
+       gfind k g' = Some n' /\ nadj n' = nadj n ++ map (fun j => (j, h_edge_attrs)) idxs /\
+       (forall attr, attr <> S "hcount" -> aget attr (na n') = aget attr (na n)) /\
+       forall j, In j idxs -> exists h, gfind j g' = Some h /\ nadj h = [(k, h_edge_attrs)] /\ is_H (na h) = true /\
+                                        added_h_attrs ca (na n') (na h)) /\
+  (forall k n, gfind k g1 = Some n -> is_H (na n) = true ->
+     exists n', gfind k g' = Some n' /\ nadj n' = nadj n /\
+       forall attr v, attr <> S "hcount" -> aget attr (na n) = Some v -> aget attr (na n') = Some v) /\
+  (forall j m, gfind j g1 = None -> gfind j g' = Some m ->
+     exists k, gfind k g1 <> None /\ nadj m = [(k, h_edge_attrs)] /\ is_H (na m) = true).
+Proof. exact rebuild_end_to_end. Qed.
+
+(** the count of clause 1 in the property's words: least fitting valence minus the bonds, and the orders
+    of the completed atom add up to that valence (the bond sum [b] counts every bond present when the
+    completion starts, explicit hydrogens included; half-integral sums end half a unit short) *)
+Theorem C09_rebuild_valence_sum : forall a val b idxs l' l,
+  valence_of a = Ok val -> fits val b -> sum_orders l = Ok b ->
+  length idxs = Z.to_nat (Z.max (missing_of val b) 0) -> l' = l ++ map (fun j : Z => (j, h_edge_attrs)) idxs ->
+  exists v, least_fitting val b v /\
+    (Z.even b = true -> 2 * Z.of_nat (length idxs) = 2 * v - b /\ sum_orders l' = Ok (2 * v)) /\
+    (Z.even b = false -> 2 * Z.of_nat (length idxs) = 2 * v - b - 1 /\ sum_orders l' = Ok (2 * v - 1)).
+Proof. exact rebuild_valence_sum. Qed.
+
+(** the hypotheses follow from the well-formedness notion C10's squash theorems preserve *)
+Theorem C09_wf_graph_structural : forall g, wf_graph g -> NoDup (node_keys g) /\ closed_g g /\ noself_g g.
+Proof. exact wf_graph_structural. Qed.
+
+Example C09_end_to_end_nonvacuous :
+  wf_graph g_example /\ (forall i n, gfind i g_example = Some n -> no_rs n) /\
+  exists g', rebuild_after_car false rebuild_copy_attrs_default g_example = Ok g' /\
+    neighbors g' 0 = [1; 2; 3; 4] /\ neighbors g' 1 = [0] /\ neighbors g' 4 = [0] /\
+    node_get g' 4 (S "fragname") = Some (VStr (S "A")) /\ node_get g' 4 (S "weight") = Some (VInt 1) /\
+    node_get g' 2 (S "weight") = Some (VFlt (S "0.5")) /\ node_get g' 2 (S "fragname") = Some (VStr (S "A")) /\
+    node_get g' 3 (S "fragid") = Some (VList [VInt 1]) /\ node_get g' 3 (S "fragname") = None.
+Proof. exact rebuild_end_to_end_nonvacuous. Qed.
+
 (** non-vacuity *)
 Example C09_nonvacuous_valence :
   table_row (S "C") 0 = Some (Some [4]) /\ fits [4] 4 /\ missing_of [4] 4 = 2 /\ missing_of [4] 6 = 1 /\
@@ -91,3 +149,7 @@ Print Assumptions C09_unused_descriptor_is_H.
 Print Assumptions C09_add_h_degree_one.
 Print Assumptions C09_fresh_keys.
 Print Assumptions C09_h_inherits.
+Print Assumptions C09_rebuild_h_atoms_transcript.
+Print Assumptions C09_rebuild_end_to_end.
+Print Assumptions C09_rebuild_valence_sum.
+Print Assumptions C09_wf_graph_structural.
